@@ -8,6 +8,10 @@ R-ROUNDTRIP   the text each computed constructor (AnyFrom/AnyButFrom/AnyBetween/
               class pipeline denotes exactly the requested set for re, AND is read back by the pipeline's own
               reader (__extract_classes, interpreted) as exactly that character / range - for every ASCII
               character, representatives beyond ASCII, and every token instance
+R-PIPELINE    the constructors are also interpreted all the way through the class pipeline (__process, __chars_to_ranges,
+              shorthand substitution, one-character collapse) under several iteration orders of the interpreted sets: the
+              emitted pattern and the stored verbose text must denote the requested set (constant classes, every ASCII
+              character, syntax-character groups, ranges, tokens)
 R-TWIN        AnyBut* constructors hand over '[^' + body of their Any* twin + ']' with the negated flag
 R-ARGS        invalid arguments raise the documented exceptions (never a builtin error)
 """
@@ -307,6 +311,83 @@ def run(ctx, model):
         if ord(ch) > 0:
             check_handed("AnyButBetween", ["\x00", tok()], f"U+0000, {name}()", [(0, ord(ch))], True, {("r", f"\x00-{ch}")})
     ctx.floor("R-ROUNDTRIP", ctx.rule_counts.get("R-ROUNDTRIP", 0), 800, "constructor evaluations")
+
+    # ---------------- R-PIPELINE
+    from ..classsets import denotes
+    from .. import interp as interp_mod
+    # iteration orders of the interpreted sets (stand for hash seeds): source order, reversed, and pseudo-random permutations
+    orders = (0, 1, 10) if ctx.tier == "quick" else (0, 1, 2, 3) + tuple(range(10, 22))
+    ctx.extra["set_iteration_orders"] = list(orders)
+
+    def full(cname, args, order):
+        interp_mod.SET_ORDER = order
+        try:
+            it = Interp(model, PregexHooks(model), fuel=300000)
+            o = it.construct(model.cls(CLS, cname), [a() if callable(a) else a for a in args])
+            return "ok", (o.fields.get("_Pregex__pattern"), o.fields.get("_Class__verbose"), o.fields.get("_Class__is_negated"))
+        except PyRaise as e:
+            return "raise", e
+        finally:
+            interp_mod.SET_ORDER = 0
+
+    def pipeline(cname, args, label, want_iv, want_neg):
+        f = model.cls(CLS, cname).find_method("__init__")
+        for order in orders:
+            kind, r = full(cname, args, order)
+            inp = f"{cname}({label})"
+            ctx.instance("R-PIPELINE", key=(inp, order), sample=f"{inp} [set order {order}] -> {r[0]!r} (verbose {r[1]!r})" if kind == "ok" else f"{inp} -> {r.name}")
+            if kind == "raise":
+                ctx.violation("R-PIPELINE", f.relpath, f"{cname}.__init__", norm_text(r.node) if r.node is not None else "<raise>",
+                              f"{cname} fails with {r.name} on valid arguments", f.node.lineno, inp=inp)
+                return
+            pattern, verbose, neg = r
+            for what, text in (("emitted pattern", pattern), ("verbose text", verbose)):
+                if text == "." and cname == "Any":
+                    continue
+                okd, why = denotes(text, want_iv, want_neg, 0) if isinstance(text, str) else (False, f"{what} is {text!r}")
+                if not okd:
+                    ctx.violation("R-PIPELINE", f.relpath, f"{cname}.__init__", f"class pipeline: {what}",
+                                  f"the {what} produced by the class pipeline does not denote the requested character set",
+                                  f.node.lineno, inp=inp, detail=f"[set order {order}] {why}")
+            if neg != want_neg and cname != "Any":
+                ctx.violation("R-PIPELINE", f.relpath, f"{cname}.__init__", "polarity flag", "the stored polarity flag is wrong",
+                              f.node.lineno, inp=inp)
+
+    for name, info in sorted(named.items()):
+        if name == "Any":
+            pipeline(name, [], "", [(0, MAXU)], False)
+            continue
+        if name in ("AnyWordChar", "AnyButWordChar"):
+            for g in (False, True):
+                pipeline(name, [g], f"is_global={g}", info["intervals"], info["is_negated_flag"])
+            continue
+        pipeline(name, [], "", info["intervals"], info["is_negated_flag"])
+    for c in ascii_chars + beyond:
+        pipeline("AnyFrom", [c], repr(c), of_chars(c), False)
+        pipeline("AnyButFrom", [c], repr(c), of_chars(c), True)
+    import itertools
+    # the order in which the members are GIVEN matters as much as the set orders: all arrangements of 2 and 3
+    base = sorted(W | ({"a"} if ctx.tier == "quick" else {"a", ".", "b"}))
+    combos = [list(g) for k in (2, 3) for g in itertools.permutations(base, k)]
+    combos += [specials[:6], specials[6:12], specials[12:], list("0123456789"), list("abcxyz_"), ["a", "c", "b"], [".", "."], sorted(W)]
+    for grp in combos:
+        if grp:
+            pipeline("AnyFrom", grp, ", ".join(map(repr, grp)), of_chars(grp), False)
+            if len(grp) != 3 or ctx.tier == "thorough" or grp == sorted(grp):
+                pipeline("AnyButFrom", grp, ", ".join(map(repr, grp)), of_chars(grp), True)
+    some_pairs = [(a, b) for a in specials for b in specials if ord(a) < ord(b)][::3] + [("a", "b"), ("a", "c"), ("0", "9"), ("A", "z"), ("\x00", "\x7f"), ("a", "é"), ("一", "\U0010ffff")]
+    for a, b in some_pairs:
+        pipeline("AnyBetween", [a, b], f"{a!r}, {b!r}", [(ord(a), ord(b))], False)
+        pipeline("AnyButBetween", [a, b], f"{a!r}, {b!r}", [(ord(a), ord(b))], True)
+    for name, info in sorted(toks.items()):
+        if info["codepoint"] is None:
+            continue
+        ch = chr(info["codepoint"])
+        tok = lambda info=info, name=name: make_operand(model, info["text"], "Token", True, cls=info["ci"], tag=name)
+        pipeline("AnyFrom", [tok], f"{name}()", of_chars(ch), False)
+        pipeline("AnyFrom", ["a", tok, "b"], f"'a', {name}(), 'b'", of_chars("ab" + ch), False)
+        pipeline("AnyButFrom", [tok], f"{name}()", of_chars(ch), True)
+    ctx.floor("R-PIPELINE", ctx.rule_counts.get("R-PIPELINE", 0), 800, "full pipeline evaluations")
 
     # ---------------- R-ARGS
     other = lambda: make_operand(model, "pq", "Other", True)
